@@ -12,5 +12,11 @@ def add_obligations(chk, tier, seed):
     mesh_loops.install(eng)
     mesh_loops.install_dorfler(eng)
     verify_contracts(eng, [c for c in mesh_loops.contracts if "C06" in c.props and c.setup], chk)
+    eng2 = common.new_engine(mesh_loops.contracts, "C06")
+    arrays.install(eng2)
+    extio.install(eng2)
+    mesh_loops.install(eng2)
+    mesh_loops.install_aniso(eng2)
+    verify_contracts(eng2, [mesh_loops.aniso_contract], chk)
     from vlib import smt
     smt.close_pool()
